@@ -151,8 +151,10 @@ func runC17(c *vf.Case) {
 		if !ok {
 			return
 		}
-		defer syscall.Close(fd)
+		// the raw server end is closed first and with an RST, so neither end lingers in TIME_WAIT (a thorough
+		// run opens ~100k connections; FIN closes would exhaust the ephemeral port range)
 		defer st.CloseNextLayer()
+		defer rawpeer.Reset(fd)
 		s, tr = st, &c17R{ioc: ioc, peer: fd}
 	} else {
 		st, t := newWS(c)
